@@ -5,9 +5,9 @@ CONSTANTS
   MaxItems = 2
   AssignMax = 4
   ArgVals = 1
-  TypeIds = {"V_u8_u8", "V_u64_u32", "V_bool_u8", "S_u8", "S_u16", "X_u8_u8", "X_vu8_u8", "X_vi32_u16", "X_s8_u16", "X_ue1_u8", "US2", "US4", "UE1"}
-  LMults = {0, 1, 2}
+  TypeIds = {"X_vu8le_le", "US6", "UE9", "V_lei32_leu16", "S_leu16"}
+  LMults = {0, 1, 2, 3, 5, 8}
   BigInit = FALSE
-  FollowUps = TRUE
+  FollowUps = FALSE
 INVARIANTS InvRoundTrip InvSize InvLenCap InvFlexShape
 CHECK_DEADLOCK FALSE
